@@ -1,4 +1,5 @@
 from datetime import datetime
+import itertools
 import numbers
 try:
     from functools import lru_cache
@@ -250,7 +251,8 @@ def parse_filter(filter):
 
 ## --- Generate python to apply filter
 FILTER_CACHE_LRU_SIZE = 500
-_id_function = 0
+# next() on a counter is atomic, "read, use, increment" of a global is not
+_id_function = itertools.count()
 
 
 class _NotFoundValue():
@@ -395,13 +397,11 @@ class _FnWrapper():
 
 @lru_cache(maxsize=FILTER_CACHE_LRU_SIZE)
 def _filter_function(filter):
-    global _id_function
     consts = []
     def_filter = _generate_filter_in_python(parse_filter(filter)._head, [], consts)
-    fun_name = "_gen_hsfilter_" + str(_id_function)
+    fun_name = "_gen_hsfilter_" + str(next(_id_function))
     function_template = "def %s(_grid, _entity, _consts=_filter_consts):\n  return " % fun_name + "".join(def_filter)
     print("\nGenerate:\n# " + filter + "\n" + function_template)  # FIXME: debug
-    _id_function += 1
     return _FnWrapper(fun_name, function_template, consts)
 
 
